@@ -25,9 +25,18 @@ Each theorem is followed by an `example` exhibiting a reachable state that satis
 hypotheses (non-vacuity).
 -/
 import GooseVerif.Lemmas.SyncProto
+import GooseVerif.Gen.Guards
+import GooseVerif.Expected.Guards
 
 namespace GooseVerif.Props.C03
 open GooseVerif.Model.SyncProto
+
+/-- T-gen obligation: the translation of the concurrency constructs — `go` statements (`goStmt`,
+`spawnExpr`: the literal's body inline under Fork, so captured variables are the parent's cells),
+and the type-directed mapping of mutex, condition-variable and wait-group methods (`lockMethod`,
+`condVarMethod`, `waitGroupMethod`: arguments passed through unchanged) — is, up to formatting,
+the committed expectation the protocol models below were written against. -/
+theorem concurrency_facts_ok : GooseVerif.Gen.Guards.concurrency = GooseVerif.Expected.Guards.concurrency := rfl
 
 /-! ## Protocol 1 — workers under a mutex, joined by a wait group -/
 
